@@ -242,6 +242,9 @@ Section Checker.
 
   Definition has_non_break_word (input : text) (k : nat) : bool :=
     nb_scan k (blen (firstn k input) - N.to_nat F.LOOKUP_BYTE_LENGTH) input.
+
+  (* the property's own reading, without the look-back bound: any such word starting anywhere before the break *)
+  Definition word_across_b (input : text) (k : nat) : bool := nb_scan k 0 input.
 End Checker.
 
 (* ---------- SPACES = .+\s+ (leftmost-first): end of the match ---------- *)
@@ -375,7 +378,8 @@ Definition ends_after_terminator_b (t : text) : bool :=
     if all_cdot (Nat.max 1 F.CDOTS_MIN) h then true
     else rev_tags (length h) (Nat.max 1 F.BR_MIN) h.
 
-(* every sentence but the last: ends after a terminator, no unclosed bracket, no multi-character word across the break *)
+(* every sentence but the last: ends after a terminator, no unclosed bracket, no multi-character word across the break
+   (any word, not only those inside the look-back window: failures of that kind are the recorded finding) *)
 Fixpoint sentences_ok (ck : checker) (data : text) (rs : list (nat * nat)) : bool :=
   match rs with
   | [] => true
@@ -385,7 +389,7 @@ Fixpoint sentences_ok (ck : checker) (data : text) (rs : list (nat * nat)) : boo
       | Some (sent, rest) =>
           ends_after_terminator_b sent
           && (plevel 0 sent =? 0)
-          && match ck with Some lk => negb (has_non_break_word lk data (length sent)) | None => true end
+          && match ck with Some lk => negb (word_across_b lk data (length sent)) | None => true end
           && sentences_ok ck rest tl
       | None => false
       end
